@@ -263,6 +263,17 @@ func fullMac(alg int, k, data []byte) []byte {
 	return x
 }
 
+// library calls made while *generating* follow-up operations must not take the generator down: a panic is an error
+// here and is reported on the operation itself when it is executed
+func safeBytes(f func() ([]byte, error)) (b []byte, err error) {
+	defer func() {
+		if r := recover(); r != nil {
+			b, err = nil, fmt.Errorf("panic: %v", r)
+		}
+	}()
+	return f()
+}
+
 func genPrimMac(r *rand.Rand, n int) []string {
 	var out []string
 	for i := 0; i < n; i++ {
@@ -285,7 +296,7 @@ func genPrimMac(r *rand.Rand, n int) []string {
 		if err != nil {
 			continue
 		}
-		tag, err := m.MACCreate(data)
+		tag, err := safeBytes(func() ([]byte, error) { return m.MACCreate(data) })
 		if err != nil {
 			continue
 		}
@@ -310,10 +321,11 @@ func genPrimMac(r *rand.Rand, n int) []string {
 		case 4:
 			t = flipBit(r, tag)
 		case 5: // tag for other data
-			t, _ = m.MACCreate(append(append([]byte{}, data...), 0))
+			t, _ = safeBytes(func() ([]byte, error) { return m.MACCreate(append(append([]byte{}, data...), 0)) })
 		default: // tag under another key
-			m2, _ := macerFor(alg, flipBit(r, k))
-			t, _ = m2.MACCreate(data)
+			if m2, e2 := macerFor(alg, flipBit(r, k)); e2 == nil {
+				t, _ = safeBytes(func() ([]byte, error) { return m2.MACCreate(data) })
+			}
 		}
 		out = append(out, fmt.Sprintf("prim.macverify %d %s %s %s", alg, hx(k), hx(data), hx(t)))
 	}
@@ -361,7 +373,7 @@ func genPrimAead(r *rand.Rand, n int) []string {
 		if err != nil {
 			continue
 		}
-		ct, err := e.Encrypt(nonce, pt, aad)
+		ct, err := safeBytes(func() ([]byte, error) { return e.Encrypt(nonce, pt, aad) })
 		if err != nil {
 			continue
 		}
